@@ -397,4 +397,72 @@ theorem holding_out_fallback {s s' : State} {c : Nat} {lb remote : Batch} (hc : 
     holdAmt s' c + lb.pending = holdAmt s c ∧ AM.get? s'.locked c = some {} :=
   livenessFallback_holding hc h
 
+/-!
+# Part 5 — the liveness fallback is not gated by `isNested` (observation, with witness)
+
+`HandleDexBatch` runs `HandleLivenessFallback` for every remote batch that carries `LivenessFallback = true`. The
+flag is meant for the nested chain (the controller sets it on `RootDexBatch` only, together with the root chain's
+points table). On the ROOT chain the batch arrives in a certificate result, for which `CertificateResult.CheckBasic`
+demands `DexBatch.PoolPoints == nil`: a flagged batch there makes the root chain replace its provider table by the
+empty table (`SetPoolPoints(nil, 0)`) while the liquidity pool keeps its balance. The accounting identities of C20
+still hold by the letter (Σ points = total is `0 = 0`; the holding pool is refunded exactly), but every provider's
+claim is gone: withdrawals fail with `PointHolderNotFound`, and the next deposit re-seeds the table (`dead := √(x·y)`)
+so that the new depositor and the dead address own the whole pool. It takes a certificate signed by the nested
+chain's committee with the flag set — the honest controller never produces one (it copies the stored locked batch,
+whose flag is always false).
+-/
+
+/-- the fallback installs exactly the remote batch's table -/
+theorem fallback_copies_remote_table {s s' : State} {c : Nat} {lb remote : Batch}
+    (h : livenessFallback s c lb remote = .ok s') :
+    (getPool s' (liquidityId c)).points = remote.poolPoints ∧
+    (getPool s' (liquidityId c)).total = remote.totalPoolPoints := by
+  unfold livenessFallback at h
+  obtain ⟨s1, _, h⟩ := bind_ok h
+  obtain ⟨s2, _, h⟩ := bind_ok h
+  injection h with h; subst h
+  have : getPool (setLocked (setPool s2 (liquidityId c)
+      { getPool s2 (liquidityId c) with points := remote.poolPoints, total := remote.totalPoolPoints }) c {}) (liquidityId c)
+      = { getPool s2 (liquidityId c) with points := remote.poolPoints, total := remote.totalPoolPoints } := by
+    rw [getPool_congr (show (setLocked _ c {}).pools = (setPool s2 (liquidityId c) _).pools from rfl), getPool_setPool_self]
+  rw [this]; exact ⟨rfl, rfl⟩
+
+/-- on the root chain (`nested = false`) a flagged batch passes only with an empty table, and the fallback is executed:
+before the remote batch is processed the provider table of the liquidity pool is empty -/
+theorem root_fallback_erases_provider_table {s s' : State} {c : Nat} {remote : Batch} {bh : Bytes}
+    (hlf : remote.livenessFallback = true) (hliq : (getPool s (liquidityId c)).amount ≠ 0)
+    (h : dexBatchOn s c false remote bh = .ok s') :
+    ∃ s1, livenessFallback s c (getBatch s c true) remote = .ok s1 ∧
+      (getPool s1 (liquidityId c)).points = [] ∧ (getPool s1 (liquidityId c)).total = remote.totalPoolPoints ∧
+      remoteDexBatch s1 remote c bh = .ok s' := by
+  unfold dexBatchOn at h
+  split at h
+  · cases h
+  · split at h
+    · cases h
+    · rename_i hnp
+      split at h
+      · cases h
+      · rename_i s1 h1
+        have hp : remote.poolPoints = [] := by
+          by_cases hpp : remote.poolPoints = []
+          · exact hpp
+          · exact absurd ⟨by decide, hpp⟩ hnp
+        have := fallback_copies_remote_table h1
+        exact ⟨s1, h1, by rw [this.1, hp], this.2, h⟩
+
+/-- witness (also run on the real code, case `witness-root-fallback`): a pool of 1000 with providers `dead` and `A`
+(10 points each); after the fallback with an empty table the pool still holds 1000, nobody holds points, and `A`
+cannot withdraw -/
+theorem root_fallback_witness :
+    (match livenessFallback
+        (setPool {} (liquidityId 2) { amount := 1000, points := [(deadAddr, 10), (addrA, 10)], total := 20 }) 2 {}
+        { poolSize := 500, livenessFallback := true } with
+     | .ok s1 =>
+       decide (getPool s1 (liquidityId 2) = { amount := 1000 }) &&
+       (match dexWithdraw s1 2 { percent := 100, addr := addrA, id := [] } with
+        | .error .PointHolderNotFound => true
+        | _ => false)
+     | .error _ => false) = true := by decide
+
 end Canopy.C20
